@@ -15,7 +15,7 @@
 #include "env/memops_witness.h"           /* memcpy/memmove of symbolic length -> witness abstraction (assumed libc) */
 #endif
 #include "env/ghost_tlvelem.h"
-#if defined(H_elserialize) || defined(H_elleaf)
+#if defined(H_elserialize) || defined(H_elleaf) || defined(H_elnested)
 #include "contracts/tlv_element_serialize.h"
 #endif
 #if defined(H_elparse) || defined(H_convertToNested)
@@ -43,6 +43,9 @@ void harness(void) {
 #endif
 #ifdef EL_FIT
 	g_el_fit_only = 1;                              /* case split: the children fit the buffer; every buffer size: C09.elserialize_nested */
+#endif
+#ifdef EL_BUF_MAX
+	__CPROVER_assume(buf_size <= EL_BUF_MAX);        /* stated bound of the job */
 #endif
 	g_el_bufsize = buf_size;
 #else
@@ -131,5 +134,67 @@ void harness(void) {
 #ifdef EL_GROUP_PAYLOAD
 	if (res == KSI_OK && buf != NULL && el.ftlv.dat_len > 9 && g_el_k == 5 && g_mem_k == 5 && (g_mem_k2 == 9 || g_mem_k2 == 7)) REACH("payload witness behind the header");
 #endif
+}
+#endif
+
+#ifdef H_elnested
+/* Nested element, write mode, plain mode with the REAL recursion: parent { 1..2 leaf children }.  BOUNDED (children <= 2,
+ * depth 1); tags, flags, payload lengths (<= EL_MAX_LEAF), option word and buffer size are symbolic.
+ * EL_FIT: case split "the buffer holds the encoding" -> sizes, header octets, tiling of the children are asserted.
+ * without EL_FIT: every buffer size -> only "no write outside the buffer, BUFFER_OVERFLOW when it does not fit". */
+static struct KSI_TlvElement_st kids[2];
+static int kid_elementAt(KSI_LIST(KSI_TlvElement) *l, size_t pos, KSI_TlvElement **o) { if (pos >= g_el_len) return KSI_BUFFER_OVERFLOW; if (pos == 0) *o = &kids[0]; else *o = &kids[1]; return KSI_OK; }
+static size_t kid_total(size_t i) { return kids[i].ftlv.dat_len + spec_tlv_enc_hdr_len(kids[i].ftlv.tag, kids[i].ftlv.dat_len); }
+void harness(void) {
+	struct KSI_TlvElement_st el; unsigned char *buf; size_t buf_size = nondet_size(); size_t len_out = nondet_size(); int opt = nondet_int(); int res; size_t i, dat, tot, pos;
+	memset(&el, 0, sizeof(el)); memset(kids, 0, sizeof(kids)); memset(&g_el_list, 0, sizeof(g_el_list));
+	g_el_list.length = el_stub_length; g_el_list.elementAt = kid_elementAt;
+	g_el_len = nondet_bool() ? 1 : 2;
+	el.subList = &g_el_list; el.ftlv.tag = nondet_uint(); el.ftlv.is_nc = nondet_int(); el.ftlv.is_fwd = nondet_int(); el.ftlv.dat_len = nondet_size();
+	__CPROVER_assume(el.ftlv.tag <= SPEC_TLV_MAX_TAG);
+	for (i = 0; i < 2; i++) {
+		kids[i].ftlv.tag = nondet_uint(); kids[i].ftlv.is_nc = nondet_int(); kids[i].ftlv.is_fwd = nondet_int(); kids[i].ftlv.dat_len = nondet_size(); kids[i].ftlv.hdr_len = nondet_bool() ? 2 : 4;
+		__CPROVER_assume(kids[i].ftlv.tag <= SPEC_TLV_MAX_TAG && kids[i].ftlv.dat_len <= EL_MAX_LEAF);
+		kids[i].ptr = malloc(kids[i].ftlv.hdr_len + kids[i].ftlv.dat_len); __CPROVER_assume(kids[i].ptr != NULL);
+	}
+	kids[0].subList = NULL; kids[1].subList = NULL;   /* leaves */
+	dat = kid_total(0) + (g_el_len == 2 ? kid_total(1) : 0);
+	tot = dat + (EL_HDR(opt) ? spec_tlv_enc_hdr_len(el.ftlv.tag, dat) : 0);
+	__CPROVER_assume(buf_size <= 4 * EL_MAX_LEAF);
+	buf = malloc(buf_size); __CPROVER_assume(buf != NULL);
+#ifdef EL_FIT
+	__CPROVER_assume(buf_size >= tot);
+#endif
+	res = KSI_TlvElement_serialize(&el, buf, buf_size, &len_out, opt);
+#ifdef EL_FIT
+	__CPROVER_assert(res == KSI_OK, "fits => OK");
+	__CPROVER_assert(len_out == tot, "reported size = sum of the children + header (header 2 octets exactly when tag <= 0x1f and content <= 0xff)");
+	__CPROVER_assert(IMPLIES(EL_HDR(opt), dat <= SPEC_TLV_MAX_LEN), "content longer than 0xffff is refused");
+	pos = (opt & KSI_TLV_OPT_NO_MOVE) ? buf_size - tot : 0;
+	if (EL_HDR(opt)) {
+		__CPROVER_assert(buf[pos] == spec_tlv_enc_hdr_byte(el.ftlv.tag, el.ftlv.is_nc, el.ftlv.is_fwd, dat, 0) &&
+				buf[pos + 1] == spec_tlv_enc_hdr_byte(el.ftlv.tag, el.ftlv.is_nc, el.ftlv.is_fwd, dat, 1), "parent header octets 0,1 = reference encoding");
+		if (spec_tlv_enc_hdr_len(el.ftlv.tag, dat) == 4)
+			__CPROVER_assert(buf[pos + 2] == spec_tlv_enc_hdr_byte(el.ftlv.tag, el.ftlv.is_nc, el.ftlv.is_fwd, dat, 2) &&
+				buf[pos + 3] == spec_tlv_enc_hdr_byte(el.ftlv.tag, el.ftlv.is_nc, el.ftlv.is_fwd, dat, 3), "parent header octets 2,3 = reference encoding");
+	}
+	/* tiling: with NO_MOVE (no final move) the children's headers sit exactly one behind the other after the parent's header */
+	if (opt & KSI_TLV_OPT_NO_MOVE) {
+		size_t c0 = pos + (tot - dat), c1 = c0 + kid_total(0);
+		__CPROVER_assert(buf[c0] == spec_tlv_enc_hdr_byte(kids[0].ftlv.tag, kids[0].ftlv.is_nc, kids[0].ftlv.is_fwd, kids[0].ftlv.dat_len, 0) &&
+				buf[c0 + 1] == spec_tlv_enc_hdr_byte(kids[0].ftlv.tag, kids[0].ftlv.is_nc, kids[0].ftlv.is_fwd, kids[0].ftlv.dat_len, 1), "first child starts right after the parent's header");
+		if (g_el_len == 2)
+			__CPROVER_assert(buf[c1] == spec_tlv_enc_hdr_byte(kids[1].ftlv.tag, kids[1].ftlv.is_nc, kids[1].ftlv.is_fwd, kids[1].ftlv.dat_len, 0) &&
+				buf[c1 + 1] == spec_tlv_enc_hdr_byte(kids[1].ftlv.tag, kids[1].ftlv.is_nc, kids[1].ftlv.is_fwd, kids[1].ftlv.dat_len, 1), "second child starts where the first ends");
+	}
+#else
+	__CPROVER_assert(res == KSI_OK || res == KSI_BUFFER_OVERFLOW, "result code");
+	__CPROVER_assert(IMPLIES(buf_size < tot, res == KSI_BUFFER_OVERFLOW), "does not fit => BUFFER_OVERFLOW");
+#endif
+	if (res == KSI_OK) REACH("serialized");
+#ifndef EL_FIT
+	if (res != KSI_OK) REACH("refused");
+#endif
+	if (res == KSI_OK && g_el_len == 2 && (opt & KSI_TLV_OPT_NO_MOVE)) REACH("two children, no move");
 }
 #endif
